@@ -432,6 +432,17 @@ func checkNetconfReaderKeepsReporting(c *Ctx, r *Report) {
 					if guardedBySelectRecvNamed(in, "done") {
 						continue
 					}
+					// ... also when that poll sits in a helper: `if d.closing() { return }`
+					if guardedBy(in, func(cv ssa.Value, t bool) bool {
+						call, ok := cv.(*ssa.Call)
+						if !ok || !t {
+							return false
+						}
+						f, _, ok := pollHelper(call.Call.StaticCallee())
+						return ok && f != nil && f.Name() == "done"
+					}) {
+						continue
+					}
 					exit = in
 				}
 			}
